@@ -942,11 +942,40 @@ func oracleSeg(c *lib.Ctx, id string, in c10in, o segObs) {
 
 // ---------------------------------------------------------------- main
 
+type loadObs struct {
+	Found, Encryptable, Stored, PreEnc, HasEnc bool
+	Entry                                      string
+}
+
+// runLoad looks at one representation of one server instance: is its sample entry one that
+// livesim2 encrypts (avc1/avc3/mp4a; read by the harness from the VoD init segment), and was
+// protection data prepared for it?
+func (e *env) runLoad(in c10in) (o loadObs) {
+	ls := e.servers[in.Server]
+	a := e.assets[in.Asset]
+	if ls == nil || a == nil {
+		return o
+	}
+	o.Stored = in.Server == "repdata-restart"
+	raw, err := os.ReadFile(filepath.Join(lib.TestVodRoot, a.Path, in.Rep, "init.mp4"))
+	if err == nil {
+		if f, err := mp4.DecodeFile(bytes.NewReader(raw)); err == nil && f.Init != nil && f.Init.Moov != nil && f.Init.Moov.Trak != nil {
+			for _, c := range f.Init.Moov.Trak.Mdia.Minf.Stbl.Stsd.Children {
+				o.Entry = c.Type()
+			}
+		}
+	}
+	o.Encryptable = o.Entry == "avc1" || o.Entry == "avc3" || o.Entry == "mp4a"
+	o.Found, o.PreEnc, o.HasEnc, _, _, _ = app.VerifC10RepEnc(ls.Srv, a.Path, in.Rep)
+	return o
+}
+
 type anyObs struct {
-	seg *segObs
-	pre *preObs
-	fn  *fnObs
-	la  *laObs
+	load *loadObs
+	seg  *segObs
+	pre  *preObs
+	fn   *fnObs
+	la   *laObs
 }
 
 func (e *env) runAny(in c10in) anyObs {
@@ -960,6 +989,9 @@ func (e *env) runAny(in c10in) anyObs {
 	case "fn":
 		o := runFn(in)
 		return anyObs{fn: &o}
+	case "load":
+		o := e.runLoad(in)
+		return anyObs{load: &o}
 	default:
 		o := e.runLa(in)
 		return anyObs{la: &o}
@@ -969,6 +1001,13 @@ func (e *env) runAny(in c10in) anyObs {
 func (e *env) oracle(c *lib.Ctx, id string, in c10in, ao anyObs) {
 	fail := func(key, what string) { c.Fail(id, key, what, in) }
 	switch {
+	case ao.load != nil:
+		o := *ao.load
+		if !o.Found {
+			fail("representation-missing", fmt.Sprintf("representation %s/%s is not served by the %q instance", in.Asset, in.Rep, in.Server))
+		} else if o.Encryptable && !o.PreEnc && !o.HasEnc {
+			fail("no-protection-data", fmt.Sprintf("%s/%s (sample entry %s) can be encrypted but the %q instance prepared no protection data for it", in.Asset, in.Rep, o.Entry, in.Server))
+		}
 	case ao.seg != nil:
 		oracleSeg(c, id, in, *ao.seg)
 	case ao.pre != nil:
@@ -1063,6 +1102,9 @@ func (e *env) oracle(c *lib.Ctx, id string, in c10in, ao anyObs) {
 
 func (e *env) term(i int, in c10in, ao anyObs) string {
 	switch {
+	case ao.load != nil:
+		o := *ao.load
+		return fmt.Sprintf("CLoad %d %s %s %s", i, lib.Cbool(o.Encryptable), lib.Cbool(o.Stored), lib.Cbool(o.HasEnc || o.PreEnc))
 	case ao.seg != nil:
 		return e.segTerm(i, in, *ao.seg)
 	case ao.pre != nil:
@@ -1203,6 +1245,21 @@ func (e *env) generate(rng *rand.Rand, c *lib.Ctx) []c10in {
 		}
 	} else {
 		c.Res.Notes = append(c.Res.Notes, "pre-encrypted scratch asset could not be built/loaded: "+e.preErr)
+	}
+	// ---- every representation on every server instance: protection data prepared?
+	for _, srv := range []string{"", "repdata-write", "repdata-restart"} {
+		for _, x := range assets {
+			a := e.assets[x.asset]
+			if a == nil {
+				continue
+			}
+			for _, r := range a.Reps {
+				if r.Kind == "image" {
+					continue
+				}
+				add("load:"+srv+":"+r.Kind, c10in{Kind: "load", Asset: x.asset, Rep: r.ID, Server: srv})
+			}
+		}
 	}
 	// ---- keys.go functions
 	nFn := 2200
@@ -1359,6 +1416,8 @@ func runC10(c *lib.Ctx) error {
 		}
 		ao := e.runAny(in)
 		switch {
+		case ao.load != nil:
+			fmt.Printf("replay C10 load: %+v\n", *ao.load)
 		case ao.seg != nil:
 			o := ao.seg
 			fmt.Printf("replay C10 seg: MPD %d kid %s scheme %s | init %d kid %s schm %s iv %x | licence %d key %x (%s) | protected %d clear %d, %d fragments %d samples, encrypted=%v decrypt=%q first differing sample %d panic=%q err=%q\n",
